@@ -12,7 +12,8 @@ def key_for(name, d):
         rc = json.loads(d["desc"])
         tests = ",".join((c.get("type") or c.get("t")) for c in (rc.get("cases") or [])) or "-"
     hits = sum(1 for o in d["outs"] if o["m"])
-    return f"{short} kind={d['kind']} hits={min(hits, 2)} dflt={'yes' if d['dflt'] else 'no'} rn={str(d['rn']).lower()} tests={tests if len(tests) < 60 else 'many'}"
+    errs = "modelled" if any((c.get("t") or "") for c in (json.loads(d["desc"]).get("cases") or [])) else "registered"
+    return f"{short} kind={d['kind']} hits={min(hits, 2)} dflt={'yes' if d['dflt'] else 'no'} rn={str(d['rn']).lower()} family={errs}"
 
 
 def validate(ctx, tracefile):
@@ -86,7 +87,7 @@ def run(ctx):
     for name, line in viols:
         by_key.setdefault(key_for(name, line), (name, line))
     known = {k["key"] for k in vlib.load_known().get("findings", []) if k["property"] == "C07"}
-    for key, (name, line) in sorted(by_key.items()):
+    for key, (name, line) in sorted(vlib.limit_new(by_key, "C07").items()):
         case = dict(desc=line["desc"], pred=name, line=line)
         if key not in known and key not in rerun(ctx, case):
             raise vlib.Infra(f"violation {key} from {line['src']} did not reproduce in a fresh process")
